@@ -653,7 +653,9 @@ def check_support(prog, rep):
         rep.unresolved("C07-R4", "check_hctl_var_support", "", "function not found")
         return
     rep.functions.add(chk.qual)
-    s = terms.Engine(prog, inline=True, hooks=E.Hooks([], inline_names=[])).summary(chk)
+    # (private helpers of the module are inlined)
+    helpers = [g.path for g in prog.lib_fns() if g.path.startswith("mc_utils::") and g.vis != "Public" and g is not collect_fn(prog)]
+    s = terms.Engine(prog, inline=True, hooks=E.Hooks([], inline_names=helpers)).summary(chk)
     cpn = chk.param_names()
     t = s.ret
     # false iff  #collected variables > #extra variable sets of some network variable:  either an explicit loop with `return false`,
@@ -703,6 +705,33 @@ def check_support(prog, rep):
               f"support check computes {sem.short(t, 200)}: it must compare the number of collected variables with the number of spare variable sets of every network variable")
 
 
+_RAW = {}
+
+
+def is_support_check(prog, ep, site):
+    """The site calls check_hctl_var_support, or a crate-internal wrapper of it (e.g. a variant that borrows the tree and clones it)."""
+    if site.is_call_to("check_hctl_var_support"):
+        return True
+    if isinstance(site.term, tuple) and site.term[:1] == ("call",) and str(site.term[1]).endswith("check_hctl_var_support"):
+        return True
+    g = prog.resolve_local(ep.crate, site.callee) if isinstance(site.callee, str) else None
+    if g is None or g.vis == "Public" or not g.path.startswith("mc_utils::"):
+        return False
+    raw = _RAW.setdefault(id(prog), terms.Engine(prog, inline=False))
+    r = raw.summary(g).ret
+    while isinstance(r, tuple) and r and r[0] == "call" and isinstance(r[1], str) and r[1].rsplit("::", 1)[-1] in ("clone",) and len(r[2]) == 1:
+        r = r[2][0]
+    pn = g.param_names()
+    return isinstance(r, tuple) and r[:1] == ("call",) and str(r[1]).endswith("check_hctl_var_support") and len(r[2]) == 2 and len(pn) == 2 \
+        and r[2][0] == ("param", pn[0]) and pm_strip(r[2][1]) == ("param", pn[1])
+
+
+def pm_strip(t):
+    while isinstance(t, tuple) and t and t[0] == "call" and isinstance(t[1], str) and t[1].rsplit("::", 1)[-1] in ("clone", "to_owned", "borrow", "deref") and len(t[2]) == 1:
+        t = t[2][0]
+    return t
+
+
 def check_pass_through(prog, rep):
     deng = terms.Engine(prog, inline=True, hooks=E.Hooks(["model_checking::", "preprocessing::parser::parse_and_minimize"]))
     for ep in pipelines.entry_points(prog):
@@ -717,13 +746,15 @@ def check_pass_through(prog, rep):
             vals = [y for y in [node] + list(subterms(node)) if y[0] == "call" and y[1].endswith("validate_props_and_rename_vars")]
             if not vals or not any(z[0] == "call" and ("parse_hctl_formula" in z[1] or "parse_extended_formula" in z[1]) for z in subterms(vals[0])):
                 good = False
-        sup = [x for x in sm.all_sites() if x.kind == "call" and x.is_call_to("check_hctl_var_support")]
+        # (a crate-internal borrowed variant of the check is presented through the public function it wraps: see terms.ApiForms)
+        sup = [x for x in sm.all_sites() if x.kind == "call" and is_support_check(prog, ep, x)]
         good = good and bool(sup)
         rep.check(good, "C07-R4", f"{ep.name}/validated", f"{ep.file}:{ep.line}", "evaluates validate_props_and_rename_vars(parse(formula)) after the support check",
                   "a tree reaches eval_node without passing validate_props_and_rename_vars / check_hctl_var_support")
     an = prog.lib_fn("analysis::analyse_formulae")
     if an is not None:
-        sm = terms.Engine(prog, inline=True, hooks=E.Hooks(["analysis::"])).summary(an)
+        import pipelines as _pl
+        sm = _pl.analysis_engine(prog).summary(an)
         evs = pipelines.eval_sites(sm)
         good = bool(evs)
         for ev in evs:
